@@ -140,3 +140,31 @@ PROPS["C15"] = {
     "trusted": ["lookups inside unordered_eq are modelled as linear scans (justified by C06's queries_scan for every reachable object)"],
     "assumptions": [],
 }
+
+
+def c06_spec_matches(model, spec):
+    # the list specification has no buckets: it must equal the model's line up to " B="
+    return model.rsplit(" B=", 1)[0] == spec
+
+
+PROPS["C06"] = {
+    "id": "C06", "family": "c06", "allow_axioms": [],
+    "nshards": {"quick": 16, "thorough": 16},
+    "nontrivial": lambda case, impl: case.count(" ") >= 3 and "+" in impl.rsplit(" B=", 1)[-1] or case.count(" ") >= 4,
+    "spec_matches": c06_spec_matches,
+    "rule": "breadth-first over distinct implementation states (entries + index buckets read through the hook) reachable "
+            "within 4 (quick) / 6 (thorough) operations over 2 keys x 2 values, trying ~45 operation instances from every "
+            "state (push, push_front, insert/insert_front/remove with the iterator pulled 0, 1 or all times then dropped, "
+            "remove_unique, remove_at at every position and past the end, sort, get_or_insert_with, get_mut, iter_mut, "
+            "extend, clone, mem::take); long random histories (up to 60 pushes then up to 120/200 mixed operations over 40 "
+            "keys: several growth/rehash cycles) with the state of every 7th prefix observed for a tenth of them; bulk "
+            "construction (from_vec, FromIterator) followed by sort / insert / insert_front+remove. Observable: every "
+            "operation's result, then len/is_empty, entries, contains_key/index_of/redundant_index_of/indexes_of/get/"
+            "get_entries/get_with_index/get_entries_with_index/get_unique/get_unique_entry for every key of the universe "
+            "and an absent key, and the bucket dump. Spec column: the same history on the plain-list specification. "
+            "Non-trivial: histories of >= 3 operations, or ending with a duplicated key. distinct = distinct case lines.",
+    "trusted": ["hashbrown RawTable behaves as a finite map (find/insert/remove/iter as documented; its hasher closure is "
+                "only called on rehash); Vec::sort_by is a stable sort",
+                "the cfg(json_syntax_verif) hook Object::verif_index_dump reads rep/other of every bucket"],
+    "assumptions": ["removal iterators are driven by the caller 0, 1, 2 or all times and then dropped (mem::forget of an iterator is outside the property)"],
+}
